@@ -391,7 +391,7 @@ def strict_check(seq, tl, dev2, case):
                             if name not in seq._schedule:
                                 continue
                             o, n = seq._schedule[name].channel_obj, cs2.channel_obj
-                            for p in TIMING + LIMITS:
+                            for p in TIMING + LIMITS + ["bottom_detuning", "total_bottom_detuning"]:
                                 if getattr(o, p, None) != getattr(n, p, None):
                                     params.add(p)
                             eo, en = getattr(o, "eom_config", None), getattr(n, "eom_config", None)
@@ -402,9 +402,24 @@ def strict_check(seq, tl, dev2, case):
                         unchecked = sorted(params - STRICT_COMPARED)
                         sig = "strict-switch-changed-" + ("timeline" if not same_tl else "samples")
                         known = sorted(set(unchecked) & {"min_duration", "custom_phase_jump_time", "max_duration", "max_sequence_duration"})
-                        if known:
+                        # DMM channels declared in another order than their ids (dmm_1 before dmm_0): the
+                        # replay renames them, but calls that name a DMM channel generically (delay, align)
+                        # are not renamed with them and land on the other DMM
+                        dmm_ids = []
+                        for nm in seq.declared_channels:
+                            if nm.startswith("dmm_"):
+                                try:
+                                    dmm_ids.append(int(nm.split("_")[1]))
+                                except (ValueError, IndexError):
+                                    pass
+                        if len(dmm_ids) >= 2 and dmm_ids != sorted(dmm_ids):
+                            sig += ":dmm-channels-declared-out-of-id-order"
+                        elif known:
                             # the automatic delays depend on these and strict mode does not compare them
                             sig += ":uncompared-timing-parameter"
+                        elif set(unchecked) & {"bottom_detuning", "total_bottom_detuning"}:
+                            # the SLM mask's detuning pulse is capped by the DMM's bottom detunings
+                            sig += ":uncompared-dmm-bottom-detuning"
                         elif unchecked == ["eom_config"] and same_smp:
                             # a different EOM buffer time moves slot boundaries between idle slots;
                             # what is played (the sampled arrays) is identical
